@@ -229,6 +229,7 @@ func cmdCheck(writeBaseline bool, argv []string) int {
 		return 2
 	}
 	w.verbose = *verbose
+	w.writingBaseline = writeBaseline
 	loadS := time.Since(t0).Seconds()
 
 	var results []*FuncResult
